@@ -48,6 +48,17 @@ class Generated:
         self.renamed = {}          # fn key -> {actual: pinned} alpha-renaming applied     # kept functions (verified with their bodies) that carry no contract      # contracted functions that no longer exist: (file, key, props)
     def text(self):
         return '\n'.join(self.lines) + '\n'
+    def relying_props(self, key):
+        """properties of `key` and of every function of the unit whose text calls something of that name (over-approximate, by last
+        path segment): when `key` is left unverified, its contract - possibly an implicit one such as a FromSpecImpl - is an
+        assumption of exactly those proofs"""
+        name = re.split(r'::', key)[-1]
+        pat = re.compile(r'(?:\.|::|\b)%s\s*(?:::<[^>]*>)?\(' % re.escape(name))
+        props = set(self.owner_props.get(key, []))
+        for ln, own in zip(self.lines, self.owner):
+            if own and own != key and not str(own).startswith('ghost:') and pat.search(ln):
+                props |= set(self.owner_props.get(own, []))
+        return sorted(props)
 
 _FNHDR = re.compile(r'^\s*(?:pub(?:\([a-z]+\))?\s+)?(?:(?:open|closed|uninterp|broadcast|const)\s+)*(?:(?:spec|proof|exec|axiom)\s+)?fn\s+(\w+)')
 _ASSUME = re.compile(r'assume_specification\s*(?:<[^\[]*>)?\s*\[\s*([^\]]+)\]')
